@@ -331,7 +331,8 @@ def multi_source_cli(run, tmp, pair, src, ref, fresh_cli):
         (root / 'day2').mkdir()
         (root / 'refs').mkdir()
         (root / 'out').mkdir()
-        n1, n2 = ('a.tif', 'a.tif') if same_names else ('a.tif', 'b.tif')
+        # (k = 1, 3: file names whose stem contains dots)
+        n1, n2 = ('a.tif', 'a.tif') if same_names else (('a.tif', 'b.tif') if k == 2 else ('scene.day1.tif', 'scene.v2.drone.tif'))
         shutil.copy(pair.src_path, root / 'day1' / n1)
         shutil.copy(pair.src_path, root / 'day2' / n2)
         shutil.copy(pair.ref_path, root / 'refs' / 'ref.tif')
